@@ -325,6 +325,22 @@ def pem_text_mutations(text, rng):
     marker = lines[0][11:-5]
     first, last, body = lines[0], lines[-1], lines[1:-1]
     J = "\n".join
+    # long labels (words, dashes, digits) with a boundary line that fails AFTER the label: the price of refusing must not
+    # depend on the label
+    for n_ in (30, 60, 200):
+        words = []
+        while sum(len(w_) + 1 for w_ in words) < n_:
+            words.append("".join(rng.choice("ABCDEFGHIJKLMNOPQRSTUVWXYZ0123456789") for _ in range(rng.choice([1, 3, 8]))))
+        for sep in (" ", "-", ""):
+            lab = sep.join(words)[:n_].strip(" -") or "X"
+            b_, e_ = "-----BEGIN %s-----" % lab, "-----END %s-----" % lab
+            yield ("pem:long-label-valid", J([b_] + body + [e_]), None)
+            yield ("pem:long-label-end-dash-missing", J([b_] + body + [e_[:-1]]), None)
+            yield ("pem:long-label-end-truncated", J([b_] + body + [e_[:-7]]), None)
+            yield ("pem:long-label-begin-dash-missing", J([b_[:-1]] + body + [e_]), None)
+            yield ("pem:long-label-begin-tab", J([b_[:-5] + "\t-----"] + body + [e_]), None)
+            yield ("pem:long-label-end-trailing-garbage", J([b_] + body + [e_ + " x"]), None)
+            yield ("pem:long-label-end-bang", J([b_] + body + [e_[:-5] + "!-----"]), None)
     yield ("pem:end-label-differs", J([first] + body + ["-----END %s X-----" % marker]), "pem-label-mismatch")
     yield ("pem:end-label-other", J([first] + body + ["-----END CERTIFICATE-----"]), "pem-label-mismatch")
     yield ("pem:begin-label-differs", J(["-----BEGIN X%s-----" % marker] + body + [last]), "pem-label-mismatch")
